@@ -293,8 +293,8 @@ Section PrintRun.
     assert (Hr : read_log NM toks (print_output NM c Ls) = Some (map (reread_day NM) Ls)).
     { destruct Ls as [|d0 Ls0] eqn:ELs; [apply read_log_nil|].
       assert (HLne : L <> []) by (intros ->; discriminate).
-      assert (HL : heading_layout (rc_date c) = true) by (rewrite Hc; apply Hlay; assumption).
-      subst toks. apply (print_reads_back NM FS c (d0 :: Ls0) HL).
+      assert (HL : heading_layout (layout_core (rc_date c)) = true) by (rewrite Hc; apply Hlay; assumption).
+      subst toks. apply (print_reads_back_core NM FS c (d0 :: Ls0) Hsafe HL).
       rewrite <- ELs in *. rewrite Forall_forall in *. intros d Hd.
       assert (HdL : In d L) by (unfold Ls in Hd; apply filter_In in Hd; tauto).
       destruct (Hshape d HdL) as [S1' [S2' [S3' S4']]].
